@@ -18,7 +18,10 @@ CLASSES = [("MinFlowDecomp", {}), ("kFlowDecomp", {"k": 3}), ("kMinPathError", {
            ("kLeastAbsErrors", {"k": 2, "solution_weights_superset": [1, 2, 3]}),
            # node-weighted use of the same caller-owned graphs, with a length attribute that some edges lack
            ("kFlowDecomp", {"k": 3, "flow_attr_origin": "node", "length_attr": "length"}),
-           ("kMinPathError", {"k": 3, "flow_attr_origin": "node", "length_attr": "length"})]
+           ("kMinPathError", {"k": 3, "flow_attr_origin": "node", "length_attr": "length"}),
+           # elements ignored by a percentile of their values: the model derives a list of its own (an ignore list passed as well is
+           # a documented error unless it is empty)
+           ("kMinPathErrorCycles", {"k": 3, "elements_to_ignore_percentile": 50})]
 COVER = {"kPathCover", "MinPathCover", "kPathCoverCycles", "MinPathCoverCycles"}
 
 
@@ -41,7 +44,7 @@ def make_pool():
     g3 = g1.copy()
     g3["b"]["d"]["flow"] = -1            # invalid unless that edge is ignored / has error scale 0
     return {"g1": g1, "g2": g2, "g3": g3, "e1": {("b", "d"): 0}, "o1": {}, "o3": {"use_subgraph_scanning_lowerbound": True},
-            "o4": {"optimize_with_safety_as_subset_constraints": True}, "c0": [], "o2": {"optimize_with_safe_paths": False, "optimize_with_safe_zero_edges": False},
+            "o4": {"optimize_with_safety_as_subset_constraints": True}, "c0": [], "i0": [], "o2": {"optimize_with_safe_paths": False, "optimize_with_safe_zero_edges": False},
             "s1": {"threads": 1}, "c1": [[("a", "b"), ("b", "c")]], "i1": [("b", "d")],
             "t1": [("a", "b")]}      # caller-owned list of trusted edges, handed to every class that accepts one
 
